@@ -1292,6 +1292,15 @@ class Adapter(object):
             while tries < 6 and not _plan_calls(plan, fs) and rng.random() < 0.85:
                 plan = gen_plan(rng, tier, Adapter.traces)
                 tries += 1
+            # ... and replay calls into the changed code in a pristine process (up to 12 per run)
+            extra = 0
+            for c, cl in enumerate(plan['clients']):
+                for k, st in enumerate(cl['steps']):
+                    if st['fn'] in fs and extra < 12 and k not in plan['iso'].get(str(c), []):
+                        plan['iso'].setdefault(str(c), []).append(k)
+                        extra += 1
+            for v in plan['iso'].values():
+                v.sort()
         return plan
 
     def execute(self, plan, stats=None):
